@@ -17,7 +17,7 @@ if [ -x "$BIN" ]; then echo "$BIN"; exit 0; fi
 mkdir -p "$VERIF/.cache" "$VERIF/bin"
 # keep the cache small: drop other trees' entries
 # (keep the four most recently used: concurrent checks of other trees may still be running from them)
-ls -1dt "$VERIF"/.cache/*/ 2>/dev/null | tail -n +5 | while read -r d; do [ "${d%/}" != "$OUT" ] && rm -rf "$d"; done
+{ ls -1dt "$VERIF"/.cache/*/ 2>/dev/null || true; } | tail -n +5 | while read -r d; do [ "${d%/}" != "$OUT" ] && rm -rf "$d"; done
 mkdir -p "$OUT"
 LOCK="$VERIF/.cache/build.lock"
 exec 9>"$LOCK"
